@@ -18,6 +18,7 @@ StrV(s)  == [t |-> "str", s |-> s]
 TimeV(n) == [t |-> "time", ts |-> n]
 BoolV(b) == [t |-> "bool", b |-> b]
 NullV    == [t |-> "null"]
+ListV(l) == [t |-> "list", l |-> l]
 IsNullV(x) == x.t = "null"
 
 Rec(v, r, t) == [m |-> "rec", v |-> v, r |-> r, t |-> t]
